@@ -10,6 +10,7 @@
 #include <stdlib.h>
 #include <string.h>
 #include <dlfcn.h>
+#include <pthread.h>
 
 #define PROP LEC_PROP
 
@@ -52,8 +53,8 @@ static int gen_esets(int n, int k, int maxsz, int cap, rng_t *r, uint32_t *out, 
 }
 
 /* ---------------------------------------------------------------- presentations */
-#define NPRES 6
-static const char *pres_name[NPRES] = { "asc", "rev", "shuf-misaligned", "asc+dup-mixed", "shuf+dup-copy", "asc-misaligned" };
+#define NPRES 7
+static const char *pres_name[NPRES] = { "asc", "rev", "shuf-misaligned", "asc+dup-mixed", "shuf+dup-copy", "asc-misaligned", "heavy-dup" };
 
 /* build index list of survivors for presentation p */
 static int pres_indexes(int p, uint32_t present, int n, rng_t *r, int *idx)
@@ -67,11 +68,16 @@ static int pres_indexes(int p, uint32_t present, int n, rng_t *r, int *idx)
     case 4: { rng_shuffle(r, idx, cnt); int d = 1 + (int)rng_below(r, 3);
               for (int i = 0; i < d && cnt < PRES_MAX - 1; i++) { int pos = (int)rng_below(r, (uint32_t)cnt + 1); int v = idx[rng_below(r, (uint32_t)cnt)];
                   memmove(idx + pos + 1, idx + pos, sizeof(int) * (size_t)(cnt - pos)); idx[pos] = v; cnt++; } } break;
+    case 6: {   /* the list repeated until it has 33..120 entries (nothing bounds the number of pointers a caller may pass) */
+        int base = cnt, target = 33 + (int)rng_below(r, 88);
+        while (cnt < target && cnt < PRES_MAX - 1) { idx[cnt] = idx[rng_below(r, (uint32_t)base)]; cnt++; }
+        rng_shuffle(r, idx, cnt);
+    } break;
     default: break;
     }
     return cnt;
 }
-static int pres_almode(int p) { return p == 2 || p == 5 ? AL_MISALIGNED : (p == 3 ? AL_MIXED : AL_ALIGNED); }
+static int pres_almode(int p) { return p == 2 || p == 5 ? AL_MISALIGNED : (p == 3 || p == 6 ? AL_MIXED : AL_ALIGNED); }
 
 /* ---------------------------------------------------------------- oracles */
 /* is success REQUIRED when exactly `present` (distinct indexes) are supplied? */
@@ -86,6 +92,47 @@ static int must_succeed(const ctx_t *x, uint32_t present)
     return code_firstk_invertible(&x->cd, present);   /* ISA-L adapters use the first k survivors */
 }
 
+/* presentation variants applied on top of the order/duplicate/alignment presentation, chosen by the case index:
+ *   5 of 8: plain heap copies
+ *   1 of 8: every fragment on its own read-only mapping (a write by the library faults)
+ *   1 of 8: fragments as an OLDER library release wrote them (writer version 1.5.0 / 1.2.0 / 1.1.0 ..., re-sealed):
+ *           readers accept them, results must be the same and the inputs must come back untouched
+ *   1 of 8: the call is made on a thread with a small stack (payload-sized stack buffers overflow it) */
+#define PV_PLAIN 0
+#define PV_READONLY 1
+#define PV_OLDWRITER 2
+#define PV_SMALLSTACK 3
+static int pres_variant(void)
+{
+    switch (mon_case_idx % 8) { case 5: return PV_READONLY; case 6: return PV_OLDWRITER; case 7: return PV_SMALLSTACK; }
+    return PV_PLAIN;
+}
+static void old_writer(pres_t *pr, const int *idx, int cnt, uint64_t flen, rng_t *r)
+{
+    static const uint32_t ov[] = { 0x010500, 0x010200, 0x010100, 0x010603, 0x010000, 0x010400 };
+    uint32_t v = ov[rng_below(r, 6)];
+    for (int i = 0; i < cnt; i++) {
+        if (flen < REF_HDR_LEN) continue;
+        ref_put32((uint8_t *)pr->ptr[i] + REF_OFF_LIBVER, v);
+        ref_hdr_reseal((uint8_t *)pr->ptr[i], idx[i] & 1);      /* by fragment index: duplicate copies stay identical */
+    }
+}
+/* run fn(arg) on a thread with a 192 KiB stack (the library's own frames are small; anything sized by the payload is not) */
+typedef struct { int (*fn)(void *); void *arg; int rc; } sst_t;
+static void *sst_tramp(void *v) { sst_t *t = v; t->rc = t->fn(t->arg); return NULL; }
+static int on_small_stack(int (*fn)(void *), void *arg)
+{
+    pthread_attr_t at; pthread_attr_init(&at); pthread_attr_setstacksize(&at, 192 * 1024);
+    sst_t t = { fn, arg, 0 }; pthread_t th;
+    if (pthread_create(&th, &at, sst_tramp, &t) != 0) { pthread_attr_destroy(&at); return fn(arg); }
+    pthread_join(th, NULL); pthread_attr_destroy(&at);
+    mon_count("calls_on_small_stack_thread", 1);
+    return t.rc;
+}
+typedef struct { int desc; char **frags; int cnt; uint64_t flen; int force; char **out; uint64_t *outlen; int dest; char *outfrag; } callargs_t;
+static int do_decode(void *v) { callargs_t *a = v; return liberasurecode_decode(a->desc, a->frags, a->cnt, a->flen, a->force, a->out, a->outlen); }
+static int do_reconstruct(void *v) { callargs_t *a = v; return liberasurecode_reconstruct_fragment(a->desc, a->frags, a->cnt, a->flen, a->dest, a->outfrag); }
+
 static void check_decode(ctx_t *x, int si, uint32_t present, int p, int force, int require, const char *cls)
 {
     stripe_t *s = &x->st[si];
@@ -93,13 +140,28 @@ static void check_decode(ctx_t *x, int si, uint32_t present, int p, int force, i
     rng_t r; rng_case(&r);
     int idx[PRES_MAX];
     int cnt = pres_indexes(p, present, n, &r, idx);
+    int pv = pres_variant();
     pres_t pr; pres_build(&pr, s, idx, cnt, pres_almode(p), 0, &r);
+    if (pv == PV_OLDWRITER) { old_writer(&pr, idx, cnt, s->flen, &r); mon_count("cases_old_writer_fragments", 1); }
+    uint64_t dig[PRES_MAX]; for (int i = 0; i < cnt; i++) dig[i] = mon_hash(pr.ptr[i], s->flen, 5);
+    if (pv == PV_READONLY) {   /* move every presented fragment onto a read-only mapping with the same misalignment */
+        for (int i = 0; i < cnt; i++) {
+            uint8_t *b = g_alloc_off(s->flen, (int)((uintptr_t)pr.ptr[i] & 15));
+            memcpy(b, pr.ptr[i], s->flen); g_ro(b);
+            free(pr.base[i]); pr.ptr[i] = (char *)b; pr.base[i] = b; pr.kind[i] = 1;
+        }
+        mon_count("cases_read_only_fragments", 1);
+    }
     char *out = (char *)(uintptr_t)0x1; uint64_t outlen = 0xdeadbeef;
     static char *dummy[1];
     /* one call in four goes through the separately created twin instance of the same configuration */
     int desc = (x->desc2 > 0 && (mon_case_idx & 3) == 3) ? x->desc2 : x->desc;
     if (desc != x->desc) mon_count("calls_through_twin_instance", 1);
-    int rc = liberasurecode_decode(desc, cnt ? pr.ptr : dummy, cnt, s->flen, force, &out, &outlen);
+    /* "forced" is any non-zero value of the flag */
+    static const int fv[] = { 1, 1, -1, 2, 1, 0x100, -0x7fffffff - 1, 1 };
+    int fval = force ? fv[(mon_case_idx / 8) % 8] : 0;
+    callargs_t ca = { desc, cnt ? pr.ptr : dummy, cnt, s->flen, fval, &out, &outlen, 0, NULL };
+    int rc = pv == PV_SMALLSTACK ? on_small_stack(do_decode, &ca) : do_decode(&ca);
     mon_count("evaluations", 1);
     mon_count("decode_calls", 1);
     if (rc == 0) {
@@ -117,11 +179,11 @@ static void check_decode(ctx_t *x, int si, uint32_t present, int p, int force, i
     } else {
         mon_count("decode_err", 1);
         if (require)
-            mon_viol(PROP, "decode-refused", "decode returned %d although the erasures are within tolerance (present=0x%x)", rc, present);
+            mon_viol(PROP, "decode-refused", "decode(force=%d) returned %d although the erasures are within tolerance (present=0x%x%s)", fval, rc, present, pv == PV_OLDWRITER ? ", fragments stamped by an older writer version" : "");
     }
-    /* the fragments handed in are still what they were (heap copies; cheap to compare) */
+    /* the fragments handed in are still what they were */
     for (int i = 0; i < cnt; i++)
-        if (memcmp(pr.ptr[i], s->frag[idx[i]], s->flen)) { mon_viol(PROP, "decode-modified-input", "input fragment %d changed by decode", idx[i]); break; }
+        if (mon_hash(pr.ptr[i], s->flen, 5) != dig[i]) { mon_viol(PROP, "decode-modified-input", "input fragment %d changed by decode%s", idx[i], pv == PV_OLDWRITER ? " (fragments stamped by an older writer version)" : ""); break; }
     pres_free(&pr);
     (void)cls;
 }
@@ -133,38 +195,53 @@ static void check_reconstruct(ctx_t *x, int si, uint32_t present, int p, int des
     rng_t r; rng_case(&r);
     int idx[PRES_MAX];
     int cnt = pres_indexes(p, present, n, &r, idx);
+    int pv = pres_variant();
     pres_t pr; pres_build(&pr, s, idx, cnt, pres_almode(p), 0, &r);
+    if (pv == PV_OLDWRITER) { old_writer(&pr, idx, cnt, s->flen, &r); mon_count("cases_old_writer_fragments", 1); }
+    uint64_t dig[PRES_MAX]; for (int i = 0; i < cnt; i++) dig[i] = mon_hash(pr.ptr[i], s->flen, 5);
+    /* what a supplied destination must come back as: the (first) copy that was handed in */
+    uint8_t *supplied = NULL;
+    for (int i = 0; i < cnt && !supplied; i++) if (idx[i] == dest) { supplied = malloc(s->flen ? s->flen : 1); memcpy(supplied, pr.ptr[i], s->flen); }
+    if (pv == PV_READONLY) {
+        for (int i = 0; i < cnt; i++) {
+            uint8_t *b = g_alloc_off(s->flen, (int)((uintptr_t)pr.ptr[i] & 15));
+            memcpy(b, pr.ptr[i], s->flen); g_ro(b);
+            free(pr.base[i]); pr.ptr[i] = (char *)b; pr.base[i] = b; pr.kind[i] = 1;
+        }
+        mon_count("cases_read_only_fragments", 1);
+    }
     uint8_t *out = malloc(s->flen ? s->flen : 1);
     memset(out, 0xCD, s->flen);
     static char *dummy[1];
     int desc = (x->desc2 > 0 && (mon_case_idx & 3) == 1) ? x->desc2 : x->desc;
     if (desc != x->desc) mon_count("calls_through_twin_instance", 1);
-    int rc = liberasurecode_reconstruct_fragment(desc, cnt ? pr.ptr : dummy, cnt, s->flen, dest, (char *)out);
+    callargs_t ca = { desc, cnt ? pr.ptr : dummy, cnt, s->flen, 0, NULL, NULL, dest, (char *)out };
+    int rc = pv == PV_SMALLSTACK ? on_small_stack(do_reconstruct, &ca) : do_reconstruct(&ca);
     mon_count("evaluations", 1);
     mon_count("reconstruct_calls", 1);
     int in_range = dest >= 0 && dest < n;
     if (rc == 0) {
         mon_count("reconstruct_rc0", 1);
+        const uint8_t *want = supplied ? supplied : (in_range ? s->frag[dest] : NULL);
         if (!in_range)
             mon_viol(PROP, "reconstruct-accepted-bad-destination", "destination %d outside 0..%d accepted", dest, n - 1);
-        else if (memcmp(out, s->frag[dest], s->flen)) {
-            uint64_t off = 0; while (out[off] == s->frag[dest][off]) off++;
-            mon_viol(PROP, "reconstruct-wrong-bytes", "reconstruct(dest=%d) returned 0 but byte %llu differs from encode's fragment (%s, got %02x want %02x)",
-                     dest, (unsigned long long)off, off < 80 ? "header" : "payload", out[off], s->frag[dest][off]);
+        else if (memcmp(out, want, s->flen)) {
+            uint64_t off = 0; while (out[off] == want[off]) off++;
+            mon_viol(PROP, "reconstruct-wrong-bytes", "reconstruct(dest=%d) returned 0 but byte %llu differs from %s (%s, got %02x want %02x)",
+                     dest, (unsigned long long)off, supplied ? "the supplied copy of that fragment" : "encode's fragment", off < 80 ? "header" : "payload", out[off], want[off]);
         }
     } else if (rc > 0) {
         mon_viol(PROP, "reconstruct-positive-rc", "reconstruct returned positive code %d", rc);
     } else {
         mon_count("reconstruct_err", 1);
         if (require && in_range)
-            mon_viol(PROP, "reconstruct-refused", "reconstruct(dest=%d) returned %d although erasures are within tolerance (present=0x%x)", dest, rc, present);
+            mon_viol(PROP, "reconstruct-refused", "reconstruct(dest=%d) returned %d although erasures are within tolerance (present=0x%x%s)", dest, rc, present, pv == PV_OLDWRITER ? ", fragments stamped by an older writer version" : "");
     }
     for (int i = 0; i < cnt; i++)
-        if (memcmp(pr.ptr[i], s->frag[idx[i]], s->flen)) { mon_viol(PROP, "reconstruct-modified-input", "input fragment %d changed", idx[i]); break; }
-    free(out);
+        if (mon_hash(pr.ptr[i], s->flen, 5) != dig[i]) { mon_viol(PROP, "reconstruct-modified-input", "input fragment %d changed", idx[i]); break; }
+    free(out); free(supplied);
     pres_free(&pr);
 }
-
 
 /* destination among the supplied fragments: "returned unchanged" means byte-identical to the copy that
  * was handed in - also when that copy is distinguishable from what this instance would write itself
@@ -323,7 +400,7 @@ static void run_nosilent(int which)
             for (int e = 0; e < np; e++) {
                 uint32_t present = pm[e];
                 int si = e % x.nstr;
-                int p = (e % 5 == 4) ? 4 : ((e % 7 == 3) ? 3 : (e % 3 == 1 ? 2 : 0));
+                int p = (e % 11 == 6) ? 6 : (e % 5 == 4) ? 4 : ((e % 7 == 3) ? 3 : (e % 3 == 1 ? 2 : 0));
                 char em[128]; mask_str(full & ~present, n, em, sizeof em);
                 int miss = n - __builtin_popcount(present);
                 int within = c.be == EC_BACKEND_FLAT_XOR_HD ? miss < c.hd : miss <= c.m;
@@ -375,7 +452,7 @@ static void run_reconstruct(int which)
         cfg_t c = cfgs[ci];
         c.ct = (ci % 7 == 3) ? CHKSUM_MD5 : (ci & 1) ? CHKSUM_CRC32 : CHKSUM_NONE;
         int legacy = (ci % 5 == 2);
-        if (legacy) setenv("LIBERASURECODE_WRITE_LEGACY_CRC", "1", 1); else unsetenv("LIBERASURECODE_WRITE_LEGACY_CRC");
+        lec_env_legacy(legacy ? 3 : 0);
         uint64_t lens[MAXSTR]; int kinds[MAXSTR];
         int nl = std_lengths(&c, lens, kinds, MAXSTR, MO.thorough ? 4 : 3);
         ctx_t x;
@@ -456,7 +533,7 @@ static void run_reconstruct(int which)
         }
         ctx_close(&x);
     }
-    unsetenv("LIBERASURECODE_WRITE_LEGACY_CRC");
+    lec_env_legacy(0);
 }
 
 /* ================================================================ C05 */
@@ -949,6 +1026,7 @@ static void run_canonical(void)
 /* ================================================================ C19 fault sequences */
 static void run_isal_faults(void)
 {
+    noise_stop();      /* the inversion failpoint is a process-wide countdown: no second thread may consume it */
     void *h = dlopen("libisal.so.2", RTLD_NOW);
     int *failat = h ? (int *)dlsym(h, "isal_ref_fail_invert_at") : NULL;
     long *calls = h ? (long *)dlsym(h, "isal_ref_invert_calls") : NULL;
@@ -1025,6 +1103,8 @@ int main(int argc, char **argv)
     if (xor_golden_selfcheck(err, sizeof err)) { mon_logf("HARNESS golden XOR tables failed their self-check: %s", err); mon_finish(); return 2; }
     int need_isal = !strcmp(PROP, "C19");
     if (need_isal && !isal_available()) { mon_logf("HARNESS reference libisal.so.2 not loadable"); mon_finish(); return 2; }
+    lec_env_legacy(0);
+    if (MO.noise) noise_start();
     if (!strcmp(PROP, "C01")) run_roundtrip(isal_available() ? 3 : 1);
     else if (!strcmp(PROP, "C02")) run_nosilent(1);
     else if (!strcmp(PROP, "C03")) run_reconstruct(1);
@@ -1040,6 +1120,7 @@ int main(int argc, char **argv)
         else if (!strcmp(MO.mode, "faults")) run_isal_faults();
         else { run_roundtrip(2); run_nosilent(2); run_reconstruct(2); run_needed(2); run_isal_faults(); }
     } else { mon_logf("HARNESS unknown property %s", PROP); mon_finish(); return 2; }
+    noise_stop();
     mon_finish();
     return 0;
 }
